@@ -306,7 +306,7 @@ where
 fn run(name: &PathBuf, debugger_opts: Option<debugger::Options>, minimal: bool) -> Result<()> {
     file_message(MsgColor::Green, "Assembling", &name);
     let mut program = if let Some(ext) = name.extension() {
-        match ext.to_str().unwrap() {
+        match ext.to_str().unwrap_or_default() {
             "lc3" | "obj" => {
                 if debugger_opts.is_some() {
                     bail!("Cannot use debugger on non-assembly file");
